@@ -111,7 +111,9 @@ Inductive reach (f : cfg) : world -> ctrl -> Prop :=
 | reach_event : forall w c e, reach f w c ->
     reach f (fst (apply_event (f_fixaff f) e (w, c))) (snd (apply_event (f_fixaff f) e (w, c)))
 | reach_sync : forall w c norder gorder border, reach f w c ->
-    reach f w (fst (sync_ipam f w norder gorder border c)).
+    reach f w (fst (sync_ipam f w norder gorder border c))
+| reach_sync_failed : forall w c norder gorder done, reach f w c ->
+    reach f w (fst (sync_ipam_failed f w norder gorder done c)).
 
 (* the pieces of one sync *)
 Definition after_check (f : cfg) (w : world) (norder : list N) (c : ctrl) : ctrl :=
@@ -145,6 +147,28 @@ Proof.
   assert (S' : same_blk c (fst (check_nodes w (f_grace f) norder (set_full c false))))
     by (eapply same_blk_trans; [apply set_full_sb|exact S]).
   split; [eapply Binv_same; eauto|]. destruct S' as [S' _]. exact S'.
+Qed.
+
+Lemma sync_failed_parts : forall f w norder gorder done c,
+  f_fixgc f = true ->
+  let c1 := after_check f w norder c in
+  let cr := fold_left (gc_revalidate w) (gorder c1) c1 in
+  let opts := map (opt_of cr) (gc_assemble (f_batch f) (gc_candidates cr (gorder c1))) in
+  fst (sync_ipam_failed f w norder gorder done c) = fold_left release_opt (filter done opts) cr
+  /\ so_rel (snd (sync_ipam_failed f w norder gorder done c)) = opts.
+Proof.
+  intros f w norder gorder done c Hf. unfold sync_ipam_failed, after_check, gc_known_leaks_part. rewrite Hf.
+  destruct (check_nodes w (f_grace f) norder (set_full c false)) as [c1 rn]. cbn [fst snd so_rel]. auto.
+Qed.
+
+(* a failed ReleaseIPs call is the same call the successful sync would have made *)
+Lemma sync_failed_same_call : forall f w norder gorder border done c,
+  f_fixgc f = true ->
+  so_rel (snd (sync_ipam_failed f w norder gorder done c)) = so_rel (snd (sync_ipam f w norder gorder border c)).
+Proof.
+  intros f w norder gorder border done c Hf.
+  destruct (sync_failed_parts f w norder gorder done c Hf) as [_ E]. rewrite E.
+  destruct (sync_parts f w norder gorder border c Hf) as [E2 _]. rewrite E2. reflexivity.
 Qed.
 
 Lemma apply_event_inv : forall e w c, idx_inv c -> Binv c ->
@@ -183,6 +207,15 @@ Proof.
     split.
     + apply fold_left_inv; auto; intros; eapply idx_inv_same; try apply mark_clean_same; auto.
     + eapply Binv_same; [apply fold_sb; intros; apply mark_clean_sb|auto].
+  - destruct IHreach as [Hi Hb].
+    destruct (sync_failed_parts f w norder gorder done c Hfg) as [E _]. rewrite E.
+    destruct (after_check_inv f w norder c Hi Hb) as [Hi1 [Hb1 _]].
+    set (c1 := after_check f w norder c) in *.
+    pose proof (reval_fold w c1 (gorder c1) c1 [] (reval_start w c1 Hi1)) as [_ [_ [Hi2 _]]].
+    split.
+    + apply fold_left_inv; auto; intros; apply release_opt_idx; auto.
+    + eapply Binv_same; [|exact Hb1].
+      eapply same_blk_trans; [apply (fold_sb (gc_revalidate w)); apply gc_revalidate_sb|]. apply (fold_sb release_opt). apply release_opt_sb.
 Qed.
 
 (* ---------- one GC sync from any reachable state, any orders ---------- *)
